@@ -12,9 +12,12 @@ type SoftCollection struct {
 func (s *SoftCollection) SetType(typ *Type) {
 	s.Type = typ
 
-	// The resources already in the collection share its type.
+	// The resources already in the collection share its type. The values of
+	// fields the new type does not have are dropped right away, so that they
+	// cannot come back if a field of the same name is added later.
 	for i := range s.col {
 		s.col[i].Type = typ
+		s.col[i].check()
 	}
 }
 
